@@ -89,7 +89,8 @@ def mk_visitor(P, cur_kinds=("Module", "Class"), tag="current"):
     P.opaque_hooks[VS + "_get_docstring"] = lambda P_, a, k: (
         None if a[1] is None else opt(P_, "docstring_of_node", lambda: SObj("Docstring", {"node": a[1]}, ident=z3.Function("DOC_OF", IntS, IntS)(a[1].ident))))
     for fn, what in (("safe_get_expression", "expression"), ("safe_get_annotation", "annotation"), ("safe_get_base_class", "base"), ("safe_get_condition", "condition")):
-        P.opaque_hooks["_griffe.agents.visitor:" + fn] = (lambda P_, a, k, what=what: expr_of(P_, a[0] if a else k.get("node"), what))
+        P.opaque_hooks["_griffe.agents.visitor:" + fn] = (lambda P_, a, k, what=what: (P_.ghost.setdefault("expr_calls", []).append((what, a[0] if a else k.get("node"), dict(k))),
+                                                                                      expr_of(P_, a[0] if a else k.get("node"), what))[1])
         P.opaque_hooks["_griffe.expressions:" + fn] = P.opaque_hooks["_griffe.agents.visitor:" + fn]
     P.ghost["events"] = ev
     return v, cur, ev, dict(G0=G0, HAS=HAS, parent=parent)
@@ -277,6 +278,13 @@ def handle_function_driver(P, prop):
             fo = fn.fields.get("overloads")
             P.prove("queued_overloads_move_to_the_implementation_in_order", z3.Implies(nonempty, z3.BoolVal(fo is ml and len(dels) == 1)), moved=fo is ml, dels=len(dels))
     if prop == "C02-params" and fn is not None:
+        # Whether a string annotation is parsed is decided by the annotation helper itself from the MODULE's `from __future__ import annotations`
+        # (auto mode, proved in C03 strings.get_expression.auto_mode); the handler must not decide it from the scope it happens to be in.
+        def scope_and_mode_clauses():
+            ann_calls = [c for c in P.ghost.get("expr_calls", []) if c[0] == "annotation"]
+            P.prove("annotations_are_built_in_auto_mode", all(c[2].get("parse_strings") is None for c in ann_calls), calls=len(ann_calls))
+            P.prove("annotations_and_defaults_get_the_scope_of_the_definition",
+                    all(c[2].get("parent") is cur for c in P.ghost.get("expr_calls", []) if c[0] in ("annotation", "expression")))
         # parameters are the element-wise image of get_parameters
         pr = fn.fields.get("parameters")
         plist = P.to_seq(P.getattr(pr, "_params")) if isinstance(pr, SObj) else None
@@ -291,6 +299,7 @@ def handle_function_driver(P, prop):
                 P.prove("parameter.kind", P.eq(pj.fields["kind"], SEnum("ParameterKind", PK(j))))
                 dflt = pj.fields["default"]
                 P.prove("parameter.has_default_iff_the_definition_gives_one", zbool(P.identical(dflt, None)) == z3.Or(PD(j) == 0, z3.And(PD(j) == 2, fails(z3.Function("PARAM_DEFAULT", IntS, IntS)(j)))))
+        scope_and_mode_clauses()      # after one arbitrary parameter was built (the list is built on demand) and the return annotation
     P.cover("handle_function.function")
 
 
